@@ -525,7 +525,7 @@ def shards(tier: str) -> list[dict[str, Any]]:
     if tier == "quick":
         return [{"what": "gen", "n": 120} for _ in range(16)]
     g = len(grid())
-    return [{"what": "grid", "part": i, "parts": 16, "total": g} for i in range(16)]
+    return [{"what": "grid", "part": i, "parts": 16, "total": g} for i in range(16)] + [{"what": "gen", "n": 2500} for _ in range(8)]
 
 
 def _quiet_aiosqlite_threads() -> None:
